@@ -2,7 +2,7 @@ package main
 
 // typed-marshalling correspondence: json.Unmarshal into the Go type, json.Marshal back, both texts
 // as trees (member order, duplicates and number texts preserved) for the model Marshal/Typed.v.
-//   tj schema x<schema id> x<json text>  ->  <tree of the input> ( ok <tree of the output> ) | ( bad )
+//   tj schema x<schema id> x<json text>  ->  <tree of the input> ( ok <tree of the output> ) <1 if the output reads back to itself> | <tree> ( bad )
 //   tj type   x<type name> x<json text>  ->  same (named struct type as listed in Gen/GoTypes.v)
 //   tj types                             ->  ( x<type name> ... )   ( x<schema id> ... )
 
@@ -151,6 +151,19 @@ func init() {
 		if err != nil {
 			return []V{in, VL(VS("bad"))}
 		}
-		return []V{in, VL(VS("ok"), ot)}
+		// the property itself, on the implementation: what was written reads back and is written identically
+		stable := false
+		var inst2 interface{}
+		if args[0].Str() == "schema" {
+			inst2 = schema.ID(args[1].Str()).Interface()
+		} else {
+			inst2 = reflect.New(tjTypes[args[1].Str()]).Interface()
+		}
+		if err := json.Unmarshal(out, inst2); err == nil {
+			if out2, err := json.Marshal(inst2); err == nil {
+				stable = bytes.Equal(out, out2)
+			}
+		}
+		return []V{in, VL(VS("ok"), ot), VB(stable)}
 	})
 }
